@@ -17,6 +17,8 @@ use std::hash::Hash;
 use vengine::gen::{gauss, idx, small_int_f64};
 use vengine::{Obs, Tier};
 
+use crate::layout::{self, Laid, Layout};
+
 // ------------------------------------------------------------------------------------------------
 // tolerances (all written into the evidence assumptions by lib.rs)
 
@@ -59,6 +61,12 @@ pub struct NbCase {
     pub smoothing: f64,
     /// extra rows to predict (besides the training rows)
     pub queries: Vec<Vec<f64>>,
+    /// memory layout of the records of the whole-data fit (and of the rows to predict)
+    #[serde(default)]
+    pub fit_layout: Layout,
+    /// memory layouts of the records of the incremental batches (cycled; empty = row-major)
+    #[serde(default)]
+    pub batch_layouts: Vec<Layout>,
 }
 
 pub trait Lab: Label + Serialize + DeserializeOwned + Hash + Eq + Clone + 'static {
@@ -268,16 +276,24 @@ fn classify(c: &NbCase, obs: &mut Obs) {
     obs.class_if(!c.string_labels, "usize_labels");
     obs.class_if(c.smoothing == 0.0, "smoothing_zero");
     obs.class_if(c.smoothing >= 0.1, "smoothing_large");
+    layout::classify(Some(c.fit_layout), &c.batch_layouts, ranges.len(), obs);
     // the property's non-trivial rule
     obs.nontrivial_if(ranges.len() >= 3 && incomplete > 0);
 }
 
-fn to_arrays<F: Flt, L: Lab>(c: &NbCase, sh: &Shape) -> (Array2<F>, Array1<L>, Array2<F>) {
-    let x = Array2::from_shape_fn((sh.n, sh.p), |(i, j)| F::cast(c.x[i][j]));
+/// (records of the whole-data fit in the case's layout, labels, rows to predict in logical form)
+fn to_arrays<F: Flt, L: Lab>(c: &NbCase, sh: &Shape) -> (Laid<F>, Array1<L>, Array2<F>) {
+    let x = Laid::new(c.fit_layout, sh.n, sh.p, F::nan(), |i, j| F::cast(c.x[i][j]));
     let y = Array1::from_shape_fn(sh.n, |i| L::make(c.y[i]));
     let nq = sh.n + c.queries.len();
     let q = Array2::from_shape_fn((nq, sh.p), |(i, j)| F::cast(if i < sh.n { c.x[i][j] } else { c.queries[i - sh.n][j] }));
     (x, y, q)
+}
+
+/// records of batch `bi` (rows `r`) in that batch's layout
+fn batch_records<F: Flt>(c: &NbCase, sh: &Shape, bi: usize, r: &std::ops::Range<usize>) -> Laid<F> {
+    let a = r.start;
+    Laid::new(layout::of(&c.batch_layouts, bi), r.len(), sh.p, F::nan(), |i, j| F::cast(c.x[a + i][j]))
 }
 
 /// counts and priors are exact on both sides
@@ -542,11 +558,12 @@ fn run_gaussian<F: Flt, L: Lab>(c: &NbCase, sh: &Shape, obs: &mut Obs, tol: &GTo
     let (x, y, q) = to_arrays::<F, L>(c, sh);
     let reference = gaussian_reference(c, sh);
     let nq = q.nrows();
+    let ql = Laid::new(c.fit_layout, nq, sh.p, F::nan(), |i, j| q[[i, j]]);
     let qrows: Vec<usize> = (0..nq).collect();
     let qvec = |r: usize| -> Vec<f64> { q.row(r).iter().map(|v| f64_of(*v)).collect() };
 
     // ---- one fit on everything
-    let ds = DatasetBase::new(x.clone(), y.clone());
+    let ds = DatasetBase::new(x.view(), y.view());
     let params = GaussianNb::<F, L>::params().var_smoothing(F::cast(c.smoothing));
     let fitted = match obs.call("gnb-fit", || params.fit(&ds)) {
         Some(Ok(m)) => Some(m),
@@ -568,9 +585,9 @@ fn run_gaussian<F: Flt, L: Lab>(c: &NbCase, sh: &Shape, obs: &mut Obs, tol: &GTo
     let mut model = None;
     let mut broken = false;
     for (bi, r) in batch_ranges(c).into_iter().enumerate() {
-        let xb = x.slice(s![r.clone(), ..]);
+        let xb = batch_records::<F>(c, sh, bi, &r);
         let yb = y.slice(s![r.clone()]);
-        let dsb = DatasetBase::new(xb, yb);
+        let dsb = DatasetBase::new(xb.view(), yb);
         let prev = model.take();
         match obs.call("gnb-fit_with", || checked.fit_with(prev, &dsb)) {
             Some(Ok(Some(m))) => model = Some(m),
@@ -628,7 +645,7 @@ fn run_gaussian<F: Flt, L: Lab>(c: &NbCase, sh: &Shape, obs: &mut Obs, tol: &GTo
         if st.values().any(|s| s.b.iter().any(|v| !(*v > 0.0) || !v.is_finite())) {
             continue;
         }
-        let Some(pred) = obs.call(if which == "fit" { "gnb-predict-fit" } else { "gnb-predict-inc" }, || m.predict(&q)) else {
+        let Some(pred) = obs.call(if which == "fit" { "gnb-predict-fit" } else { "gnb-predict-inc" }, || m.predict(&ql.view())) else {
             continue;
         };
         let preds: Vec<Option<u8>> = pred.iter().map(class_of).collect();
@@ -741,7 +758,7 @@ fn run_multinomial<L: Lab>(c: &NbCase, sh: &Shape, obs: &mut Obs) {
     let nq = q.nrows();
     let qvec = |r: usize| -> Vec<f64> { q.row(r).to_vec() };
 
-    let ds = DatasetBase::new(x.clone(), y.clone());
+    let ds = DatasetBase::new(x.view(), y.view());
     let params = MultinomialNb::<f64, L>::params().alpha(c.smoothing);
     let fitted = match obs.call("mnb-fit", || params.fit(&ds)) {
         Some(Ok(m)) => Some(m),
@@ -762,9 +779,9 @@ fn run_multinomial<L: Lab>(c: &NbCase, sh: &Shape, obs: &mut Obs) {
     let mut model = None;
     let mut broken = false;
     for (bi, r) in batch_ranges(c).into_iter().enumerate() {
-        let xb = x.slice(s![r.clone(), ..]);
+        let xb = batch_records::<f64>(c, sh, bi, &r);
         let yb = y.slice(s![r.clone()]);
-        let dsb = DatasetBase::new(xb, yb);
+        let dsb = DatasetBase::new(xb.view(), yb);
         let prev = model.take();
         match obs.call("mnb-fit_with", || checked.fit_with(prev, &dsb)) {
             Some(Ok(Some(m))) => model = Some(m),
@@ -809,7 +826,8 @@ fn run_multinomial<L: Lab>(c: &NbCase, sh: &Shape, obs: &mut Obs) {
             if rows.is_empty() {
                 continue;
             }
-            let sub = q.select(ndarray::Axis(0), rows);
+            let subl = Laid::new(c.fit_layout, rows.len(), sh.p, f64::NAN, |i, j| q[[rows[i], j]]);
+            let sub = subl.view();
             let pred = if is_prone {
                 match vengine::guard(|| m.predict(&sub)) {
                     Ok(p) => p,
@@ -870,6 +888,8 @@ struct Meta {
     cut_threshold: u16,
     smoothing: f64,
     string_labels: bool,
+    fit_layout: Layout,
+    batch_layouts: Vec<Layout>,
 }
 
 fn cell(kind: Kind, data_mode: u8) -> BoxedStrategy<f64> {
@@ -968,7 +988,7 @@ fn build(m: Meta, labels: Vec<u16>, mut x: Vec<Vec<f64>>, cuts: Vec<u16>, mut qu
         }
     }
     sizes.push(cur);
-    NbCase { kind: m.kind, string_labels: m.string_labels, x, y, sizes, smoothing: m.smoothing, queries }
+    NbCase { kind: m.kind, string_labels: m.string_labels, x, y, sizes, smoothing: m.smoothing, queries, fit_layout: m.fit_layout, batch_layouts: m.batch_layouts }
 }
 
 pub fn strategy(kind: Kind, tier: Tier) -> impl Strategy<Value = NbCase> {
@@ -988,8 +1008,10 @@ pub fn strategy(kind: Kind, tier: Tier) -> impl Strategy<Value = NbCase> {
         ],
         proptest::sample::select(SMOOTHINGS.to_vec()),
         any::<bool>(),
+        layout::one(),
+        layout::list(),
     )
-        .prop_map(move |(n, p, ncls, label_mode, data_mode, cut_threshold, smoothing, string_labels)| Meta {
+        .prop_map(move |(n, p, ncls, label_mode, data_mode, cut_threshold, smoothing, string_labels, fit_layout, batch_layouts)| Meta {
             kind,
             n,
             p,
@@ -999,6 +1021,8 @@ pub fn strategy(kind: Kind, tier: Tier) -> impl Strategy<Value = NbCase> {
             cut_threshold,
             smoothing,
             string_labels,
+            fit_layout,
+            batch_layouts,
         });
     meta.prop_flat_map(|m| {
         let c = cell(m.kind, m.data_mode);
@@ -1047,6 +1071,10 @@ pub struct WideCase {
     pub smoothing: f64,
     pub n_queries: usize,
     pub seed: u64,
+    #[serde(default)]
+    pub fit_layout: Layout,
+    #[serde(default)]
+    pub batch_layouts: Vec<Layout>,
 }
 
 fn derive_wide(w: &WideCase) -> Option<(NbCase, Vec<i8>)> {
@@ -1119,7 +1147,17 @@ fn derive_wide(w: &WideCase) -> Option<(NbCase, Vec<i8>)> {
     }
     sizes.push(cur);
     Some((
-        NbCase { kind: w.kind, string_labels: w.string_labels, x, y, sizes, smoothing: w.smoothing, queries },
+        NbCase {
+            kind: w.kind,
+            string_labels: w.string_labels,
+            x,
+            y,
+            sizes,
+            smoothing: w.smoothing,
+            queries,
+            fit_layout: w.fit_layout,
+            batch_layouts: w.batch_layouts.clone(),
+        },
         exps,
     ))
 }
@@ -1217,8 +1255,9 @@ pub fn strategy_wide(kind: Kind, _tier: Tier) -> impl Strategy<Value = WideCase>
         any::<u64>(),
         any::<bool>(),
         any::<bool>(),
+        (layout::one(), layout::list()),
     )
-        .prop_map(move |(p, exponent, rows_per_class, blocks, cuts, smoothing, n_queries, seed, f32_model, string_labels)| WideCase {
+        .prop_map(move |(p, exponent, rows_per_class, blocks, cuts, smoothing, n_queries, seed, f32_model, string_labels, (fit_layout, batch_layouts))| WideCase {
             kind,
             f32_model: f32_model && kind == Kind::Gaussian,
             string_labels,
@@ -1230,5 +1269,7 @@ pub fn strategy_wide(kind: Kind, _tier: Tier) -> impl Strategy<Value = WideCase>
             smoothing,
             n_queries,
             seed,
+            fit_layout,
+            batch_layouts,
         })
 }
